@@ -22,15 +22,16 @@ pkgdir=$(grep -ohE "server(/[a-z0-9_/]+)?" $SD/notes.md 2>/dev/null | head -1)
 echo "== $SD property=$P demo=$demo pkg=$pkgdir"
 if [ -n "$demo" ]; then
   cp $demo $R/$pkgdir/zz_seeded_demo_test.go
-  (cd $R/$pkgdir && go test -tags mysql -vet=off -count=1 -run 'Seeded' . >/tmp/seed_clean.log 2>&1); echo "demo on clean tree: exit $? (want 0)"
+  (cd $R/$pkgdir && go test -tags mysql -vet=off -count=1 -run 'Seeded' . >/tmp/seed_clean.$$.log 2>&1); echo "demo on clean tree: exit $? (want 0)"
 fi
 git apply $SD/patch.diff || { echo "patch does not apply"; rm -f $R/$pkgdir/zz_seeded_demo_test.go; exit 2; }
 if [ -n "$demo" ]; then
-  (cd $R/$pkgdir && go test -tags mysql -vet=off -count=1 -run 'Seeded' . >/tmp/seed_patched.log 2>&1); echo "demo on patched tree: exit $? (want non-zero)"
+  (cd $R/$pkgdir && go test -tags mysql -vet=off -count=1 -run 'Seeded' . >/tmp/seed_patched.$$.log 2>&1); echo "demo on patched tree: exit $? (want non-zero)"
   rm -f $R/$pkgdir/zz_seeded_demo_test.go
 fi
 go build ./server/... >/dev/null 2>&1; echo "build: exit $?"
-go test -vet=off -count=1 ./server ./server/db/common ./server/drafty ./server/ringhash >/tmp/seed_suite.log 2>&1; echo "suite on patched tree: exit $? (want 0)"
-cd /verif && ./check $P $TIER > /tmp/seed_check.log 2>&1; rc=$?
-echo "check $P $TIER: exit $rc"; grep -a -E "^(VIOLATION|KNOWN|INCONCLUSIVE|  harness=)" /tmp/seed_check.log | cut -c1-400 | head -8; tail -1 /tmp/seed_check.log
+go test -vet=off -count=1 ./server ./server/db/common ./server/drafty ./server/ringhash >/tmp/seed_suite.$$.log 2>&1; echo "suite on patched tree: exit $? (want 0)"
+cd /verif && ./check $P $TIER > /tmp/seed_check.$$.log 2>&1; rc=$?
+echo "check $P $TIER: exit $rc"; grep -a -E "^(VIOLATION|KNOWN|INCONCLUSIVE|  harness=)" /tmp/seed_check.$$.log | cut -c1-400 | head -8; tail -1 /tmp/seed_check.$$.log
 cd $R && git checkout -- . && git status --short | head -3
+rm -f /tmp/seed_clean.$$.log /tmp/seed_patched.$$.log /tmp/seed_suite.$$.log /tmp/seed_check.$$.log
